@@ -23,7 +23,7 @@ pub mod num {
         /// integer square root (Roots::sqrt): panics on a negative argument
         #[verifier::external_body] pub fn sqrt(&self) -> (r: BigInt) requires self@ >= 0 ensures r@ >= 0, r@ * r@ <= self@ < (r@ + 1) * (r@ + 1) { unimplemented!() }
         /// TryInto<u128>
-        #[verifier::external_body] pub fn try_into(self) -> (r: Result<u128, TryFromBigIntError>)
+        #[verifier::external_body] pub fn try_into(&self) -> (r: Result<u128, TryFromBigIntError>)
             ensures 0 <= self@ <= u128::MAX ==> r == Ok::<u128, TryFromBigIntError>(self@ as u128), !(0 <= self@ <= u128::MAX) ==> r is Err { unimplemented!() }
         #[verifier::external_body] pub fn to_biguint(&self) -> (r: Option<BigInt>) ensures self@ >= 0 ==> r is Some && r->Some_0@ == self@, self@ < 0 ==> r is None { unimplemented!() }
     }
@@ -41,17 +41,22 @@ pub mod num {
         /// same rational number
         pub open spec fn frac_eq(a: Frac, b: Frac) -> bool { a.n * b.d == b.n * a.d }
         impl<T> Clone for Ratio<T> { #[verifier::external_body] fn clone(&self) -> (r: Self) ensures r@ == self@ { unimplemented!() } }
-        impl Ratio<u128> {
+        pub trait RatioElem: Sized { spec fn val(&self) -> int; }
+        impl RatioElem for u128 { open spec fn val(&self) -> int { *self as int } }
+        impl RatioElem for BigInt { open spec fn val(&self) -> int { self@ } }
+        impl<T: RatioElem> Ratio<T> {
             /// Ratio::new reduces the fraction and panics on a zero denominator
-            #[verifier::external_body] pub fn new(n: u128, d: u128) -> (r: Ratio<u128>) requires d != 0 ensures r@ == (Frac { n: n as int, d: d as int }) { unimplemented!() }
+            #[verifier::external_body] pub fn new(n: T, d: T) -> (r: Ratio<T>) requires d.val() != 0 ensures d.val() > 0 ==> r@ == (Frac { n: n.val(), d: d.val() }) { unimplemented!() }
+        }
+        impl Ratio<u128> {
             /// numer()/denom(): the reduced representative (n', d'): n'/d' is the same rational, d' > 0
             #[verifier::external_body] pub fn numer(&self) -> (r: &u128) ensures *r == reduced(*self).0 { unimplemented!() }
             #[verifier::external_body] pub fn denom(&self) -> (r: &u128) ensures *r == reduced(*self).1 { unimplemented!() }
         }
+        pub broadcast axiom fn axiom_ratio_u128_nonneg(r: Ratio<u128>) ensures (#[trigger] r@).n >= 0;
         pub uninterp spec fn reduced(r: Ratio<u128>) -> (u128, u128);
         pub broadcast axiom fn axiom_reduced(r: Ratio<u128>) ensures (#[trigger] reduced(r)).1 > 0, frac_eq(Frac { n: reduced(r).0 as int, d: reduced(r).1 as int }, r@);
         impl Ratio<BigInt> {
-            #[verifier::external_body] pub fn new(n: BigInt, d: BigInt) -> (r: Ratio<BigInt>) requires d@ != 0 ensures d@ > 0 ==> r@ == (Frac { n: n@, d: d@ }) { unimplemented!() }
             /// floor(): an integral ratio (denominator 1)
             #[verifier::external_body] pub fn floor(&self) -> (r: Ratio<BigInt>) ensures r@ == (Frac { n: self@.n / self@.d, d: 1 }) { unimplemented!() }
             /// numerator of the reduced form; only ever called right after floor() in the repo (denominator 1)
